@@ -122,6 +122,18 @@ func errClass(err error) string {
 	return "err:" + m
 }
 
+// c03Equal: the records decoded, and whether the stream ended cleanly or with an error — the property
+// does not say WHICH error (the classes above are derived from message wording and only feed the tags)
+func c03Equal(_ c03Case, impl, model Sexp) bool {
+	norm := func(s Sexp) string {
+		if s.IsL && len(s.List) == 2 && !s.List[1].IsL && s.List[1].Atom != "clean" {
+			return L(s.List[0], A("err")).String()
+		}
+		return s.String()
+	}
+	return norm(impl) == norm(model)
+}
+
 func c03Decode(rd io.ReadCloser) Sexp {
 	it := dockerlog.ParseLog(rd, otelstorage.Attrs(pcommon.NewMap()))
 	var recs []Sexp
@@ -306,6 +318,7 @@ func init() {
 				return c03Decode(&chunkReader{data: c03Stream(t), sizes: append([]int{}, t.Sizes...), eofWith: t.EOFWith, failAt: -1})
 			},
 			Shrink: c03Shrink,
+			Equal:  c03Equal,
 			Nontrivial: func(t c03Case, _ Sexp) bool {
 				faulted := t.Cut >= 0
 				for _, r := range t.Recs {
@@ -338,6 +351,7 @@ func init() {
 			},
 			Impl:       frames.Impl,
 			Shrink:     c03Shrink,
+			Equal:      c03Equal,
 			Nontrivial: frames.Nontrivial,
 		}
 		ts := &Spec[c03Rec]{
